@@ -41,6 +41,12 @@ Decided for derived-type argument expansion and duplicate-argument removal:
      in the module spec renames the callee for every contained procedure); with
      the routine's own imports only, such a call is left unexpanded while the
      callee's signature is rewritten.
+ R8  a declared extent becomes the shape of a deferred-shape dummy only for the
+     dimensions passed whole: in the comprehension over ``zip(val.shape,
+     val.dimensions)`` of ``ArgumentArrayShapeAnalysis`` the filter on the
+     subscript implies the full range ``:`` (truth table over its conditions); a
+     filter that also admits ``lo:hi`` gives the dummy more elements than the
+     passed section has.
 Not decided: the index arithmetic of sequence-association resolution, explicit
 argument shapes, type-bound call rewriting, and the equivalence of the rewritten
 bodies.
@@ -369,8 +375,78 @@ def run_r5(ctx):
     else:
         ctx.judge('R6', 'no truthiness test of section bounds', facts={'functions': nfun})
 
+    # ---- R8
+    ctx.rule('R8', "argument_shape.py: a declared extent is adopted for a dimension of a passed section only where the subscript is the "
+                   "full range `:` (the filter on the subscript implies it)")
+    import itertools as _it
+    from sa import boolfun as BF
+    amod = m.module_by_path('loki/transformations/argument_shape.py')
+    n8 = 0
+    for comp in [c_ for c_ in ast.walk(amod.tree) if isinstance(c_, (ast.ListComp, ast.GeneratorExp))]:
+        gen = comp.generators[0]
+        it_ = gen.iter
+        if not (isinstance(it_, ast.Call) and X.call_name_of(it_) == 'zip' and len(it_.args) == 2 and isinstance(gen.target, ast.Tuple)
+                and len(gen.target.elts) == 2 and all(isinstance(t_, ast.Name) for t_ in gen.target.elts)):
+            continue
+        a0, a1 = it_.args
+        if not (isinstance(a0, ast.Attribute) and a0.attr == 'shape' and isinstance(a1, ast.Attribute) and a1.attr == 'dimensions'
+                and ast.unparse(a0.value) == ast.unparse(a1.value)):
+            continue
+        s_name, d_name = (t_.id for t_ in gen.target.elts)
+        if not any(isinstance(n_, ast.Name) and n_.id == s_name for n_ in ast.walk(comp.elt)):
+            continue
+        n8 += 1
+        where = f'{amod.relpath}:{comp.lineno}'
+        inst = f'argument_shape:{ast.unparse(comp)[:70]}'
+        if not gen.ifs:
+            ctx.violation('R8', 'ArgumentArrayShapeAnalysis:extent-of-partial-section', where,
+                          f'`{ast.unparse(comp)[:90]}` adopts the declared extent of every dimension of the passed section', instance=inst)
+            continue
+        test = gen.ifs[0] if len(gen.ifs) == 1 else ast.BoolOp(op=ast.And(), values=list(gen.ifs))
+        atoms = BF.leaves(test)
+        d = d_name
+
+        def kind(a):
+            a_ = a.replace(' ', '').replace('"', "'")
+            if a_ in (f"{d}==':'", f"':'=={d}", f"str({d})==':'"):
+                return 'full'
+            if a_ in (f'{d}.lowerisNone', f'{d}.startisNone'):
+                return 'lo'
+            if a_ in (f'{d}.upperisNone', f'{d}.stopisNone'):
+                return 'up'
+            if a_ == f'{d}.stepisNone':
+                return 'st'
+            if a_.startswith(f'isinstance({d},') and 'RangeIndex' in a_:
+                return 'isrange'
+            return None
+        kinds = {a: kind(a) for a in atoms}
+        if any(k is None for k in kinds.values()):
+            raise AnalysisError(f'C34 R8 ({where}): filter `{ast.unparse(test)}` has a condition outside the recognised ones')
+        bad = None
+        for vals in _it.product((False, True), repeat=len(atoms)):
+            env = dict(zip(atoms, vals))
+            if not BF.ev(test, env):
+                continue
+            k = {kinds[a] for a, v in env.items() if v}
+            if 'full' in k or {'lo', 'up'} <= k:
+                continue
+            bad = sorted(a for a, v in env.items() if v)
+            break
+        if bad is None:
+            ctx.judge('R8', inst, facts={'filter': ast.unparse(test)})
+        else:
+            ctx.violation('R8', 'ArgumentArrayShapeAnalysis:extent-of-partial-section', where,
+                          f'the filter `{ast.unparse(test)}` also holds when only [{", ".join(bad) or "nothing"}] is true, i.e. for a bounded '
+                          f'subscript such as `2:n`: the declared extent of that dimension becomes the shape of the dummy although the '
+                          f'passed section is shorter', instance=inst)
+    ctx.floor('R8', 'extents adopted from the dimensions of a passed section', n8, 1)
+
 
 MUTANTS = [
+    Mutant('extent-of-any-range-subscript', 'loki/transformations/argument_shape.py', "                                         if d == ':']",
+           "                                         if isinstance(d, sym.RangeIndex)]", expect=('R8', 'extent-of-partial-section')),
+    Mutant('neutral-full-range-by-bounds', 'loki/transformations/argument_shape.py', "                                         if d == ':']",
+           "                                         if isinstance(d, sym.RangeIndex) and d.lower is None and d.upper is None]", expect=None),
     Mutant('rename-only-second-dummy', RS, "combine_map = {routine_args[0]: as_tuple(routine_args[1:]) for routine_args in combine}",
            "combine_map = {routine_args[0]: as_tuple(routine_args[1]) for routine_args in combine}", expect=('R4', 'partial-group')),
     Mutant('renames-of-own-imports-only', DT, "            for import_ in routine.imports + getattr(routine.parent, 'imports', ())\n",
